@@ -290,6 +290,9 @@ func (x *run) checkC03(obs []seen) *Failure {
 			continue
 		}
 		sites[s.Owner.Reg]++
+		if s.E == nil && s.Owner.Out < len(reg.Outs) && reg.Outs[s.Owner.Out].Nil {
+			continue // an output its constructor always leaves nil: nothing to be fresh
+		}
 		if s.E == nil {
 			return fail("C03", "fresh", "nil", "%s yielded nil", s.Where)
 		}
@@ -650,6 +653,12 @@ func TestC03Transient(t *testing.T) {
 		// after a failed construction: still no transient instance at two places
 		faulty:      true,
 		faultOracle: func(x *run, obs []seen) *Failure { return x.checkC03Fresh(obs) },
+		// now and then a group in which a transient member is followed by a member that is always nil
+		mutate: func(rt *rapid.T, cfg *kit.Config) {
+			if rapid.IntRange(0, 5).Draw(rt, "nilMember") == 0 {
+				kit.PlantNilMember(rt, cfg)
+			}
+		},
 	}, "histories")
 }
 
